@@ -17,7 +17,14 @@ Which hypotheses each theorem carries:
   restart) AND per-key FIFO completion (`legalRun` / `legalDeliver`, built into `Op.run` / `Op.deliver`):
   `settled_readback` = `settled_readback_partial`, `settled_readback_all` = `settled_readback_all_partial`;
 * additionally `BelowCapacity`: `schedule_independent_partial`;
-* additionally `NoWriteFault` (no spawned write fails): `settled_readback_faults_partial`.
+* `settled_readback_faults_partial` (`NoWriteFault`) and `settled_readback_anyorder_partial` (`PerKeyFifo`) are WEAK: the
+  hypothesis is that the WHOLE history contains no failing write / no `runAny` at all, and under it each is
+  `settled_readback` restated on the embedded base history (`frun_base` / `rrun_base`). Neither says anything about a
+  history with even one fault, or one out-of-order completion, on ANOTHER key. The per-key statements ("no fault / no
+  `runAny` on a task of key k, no removal of k in flight ⇒ the read-back conclusion for k") are OPEN: `KeyInv` is a
+  global invariant and has not been carried over to `fstep` / `rstep`. What IS proved about histories that do contain
+  faults: `get_sound_faults`, `failed_write_removes_key` (any start state), `views_agree_faults`,
+  `capacity_bound_partial_faults`, `restart_sound_faults`.
 Refuted full statements: `SettledListedReadable` (K-a), `ScheduleIndependent` (at capacity), `SettledReadbackFaults`
 (a failed overwrite destroys the previous version too), `SettledReadbackAnyOrder` (same-key completion order, K-a2).
 -/
@@ -373,8 +380,13 @@ theorem settledReadbackFaults_false : ¬ SettledReadbackFaults := by
 /-- no spawned write fails: the history is a history of the base model -/
 def NoWriteFault (fops : List FOp) (ops : List Op) : Prop := fops = ops.map .base
 
-/-- **Settled read-back with the error path in the model (partial).** Missing hypothesis of `SettledReadbackFaults`:
-`NoWriteFault`. Then it is `settled_readback_partial` (which carries `NoRemoveWhileInFlight` and per-key FIFO). -/
+/-- **Settled read-back with the error path in the model (partial — a restatement).** Missing hypothesis of
+`SettledReadbackFaults`: `NoWriteFault`, which is GLOBAL (not one write of ANY key fails). Under it the fault history is
+the embedding of a base history (`frun_base`) and this is `settled_readback_partial` verbatim (carrying
+`NoRemoveWhileInFlight` and per-key FIFO); the conjunct `failed = []` is by `rfl`. It proves nothing about a history in
+which a write of another key failed. OPEN (not proved): the per-key form — no failing write of a task of key `k`, no
+removal of `k` in flight (handling another key's `RemoveFailedLocalRecord` is a removal of that other key only) ⇒ the
+read-back conclusion for `k`; it needs `KeyInv` re-proved over `fstep`. -/
 theorem settled_readback_faults_partial (cfg : Cfg) (dist : Nat → Nat) (fops : List FOp) (ops : List Op)
     (hnf : NoWriteFault fops ops) (hn : NoRemoveWhileInFlight cfg dist (init cfg dist) ops) (k : Nat)
     (hq : KeyQuiet (frun cfg dist fops).s k) :
@@ -475,8 +487,12 @@ theorem settledReadbackAnyOrder_false : ¬ SettledReadbackAnyOrder := by
 /-- per-key FIFO: the relaxed history uses no `runAny` -/
 def PerKeyFifo (rops : List RelaxedOp) (ops : List Op) : Prop := rops = ops.map .base
 
-/-- **Settled read-back over relaxed histories (partial).** Missing hypothesis of `SettledReadbackAnyOrder`:
-`PerKeyFifo` — then it is `settled_readback_partial`. -/
+/-- **Settled read-back over relaxed histories (partial — a restatement).** Missing hypothesis of
+`SettledReadbackAnyOrder`: `PerKeyFifo`, which is GLOBAL (no `runAny` at all). Under it the relaxed history is the
+embedding of a base history (`rrun_base`, `rlastEvent_base`) and this is `settled_readback_partial` verbatim. It proves
+nothing about a history in which tasks of ANOTHER key completed out of order. OPEN (not proved): the per-key form — every
+`runAny id` in the history is on a task of a key other than `k` (or is the oldest pending task of its key) ⇒ the
+read-back conclusion for `k`; it needs `KeyInv` re-proved over `rstep`. -/
 theorem settled_readback_anyorder_partial (cfg : Cfg) (dist : Nat → Nat) (rops : List RelaxedOp) (ops : List Op)
     (hf : PerKeyFifo rops ops) (hn : NoRemoveWhileInFlight cfg dist (init cfg dist) ops) (k : Nat)
     (hq : KeyQuiet (rrun cfg dist rops) k) :
